@@ -48,7 +48,7 @@ URI_SRC = {'VideoIn': 'file://video.mp4', 'ImageIn': 'file:///tmp/images', 'REST
 URI_OUT = {'VideoOut': 'file://out.mp4', 'Recorder': 'file://rec.txt', 'ImageOut': 'file:///tmp/out_%d.jpg',
            'MQTTOut': 'mqtt://localhost:1883/topic'}
 SUFFIX = {'': '', '?': '?', '??': '??', ';t': ';main', ';a>b': ';main>other', '!o': '!x=1', '??;t!o': '??;main!x=1',
-          ';t;a>b': ';main;cam>other'}
+          ';t;a>b': ';main;cam>other', '?!o': '?!x=1', '??!o': '??!x=1'}
 EXTRA = {'': ([], None), 'log': (['--log', 'pretty'], ('log', 'pretty')),
          'misc': (['--misc1', 'file://testdir/testfile'], ('misc1', 'file://testdir/testfile')),
          'neg': (['--no-outputs_jpg'], ('outputs_jpg', False))}
